@@ -210,6 +210,34 @@ CHECKS.update({
     },
 })
 
+CHECKS.update({
+    'C11': {
+        'level': 'model_checking', 'design_ref': 'DESIGN.md section 5 (C11)',
+        'technique': 'explicit-state exploration of scheduler+farm with explicit workers, revisions and life-cycle changes; every byte written to every worker decoded and judged',
+        'text': 'State graph with an explicit farm: up to 2 workers registering with the current or a stale revision, '
+        'disconnecting, polling status; pipeline inactive / active / reload to a new revision (what FSM.load does); '
+        'run requests, dispatch, replies. Every task message goes to a connection registered with the revision current '
+        'at send time, still connected, holding no task, while active; status polls and registrations are answered '
+        'correctly; nothing but abort responses is written while inactive; a reload clears the farm; message fields '
+        '(factory, target, run 0 for regressions) match the released unit; the run id is the one the triggering event '
+        'carried, else db.next() drawn exactly once per released algorithm.',
+        'note': _SCHED_NOTE + '; cloud (AWS) placement is out of reach; db.next() is a harness constant in this tier '
+        '(strict monotonicity of next() against stored runs is decided in C08).',
+    },
+    'C20': {
+        'level': 'exploration', 'design_ref': 'DESIGN.md section 4 (C20)',
+        'technique': 'exhaustive enumeration of event specifications x clock instants; bounded exhaustive exploration of firing/dispatch/reply/reload interleavings over 3 periods under a virtual clock',
+        'text': '(a) 114 specifications (dow 0..6, dom 1..31, 3 times of day) + date specs at every hour of 2023-2028 and +-1 s '
+        'around every midnight through the real schedule._delay: never raises, designates the specified moment, no '
+        'further than one period ahead. (b) real periodics/defer/complete + farm on the virtual reactor and clock, 7 '
+        'engines x 5 boot instants, all interleavings of timer / dispatch / reply / reload over a 3-period horizon: a '
+        'firing queues exactly the known targets, a boot event fires once per process (also across a reload), every '
+        'occurrence of a weekly / monthly event is served within its period.',
+        'note': 'a moment earlier on the current day counts as due (as the code treats it); the farm dispatches before '
+        'virtual time passes; a unit may outlive one time step.',
+    },
+})
+
 _PENDING = 'check not built yet in this session (planned in DESIGN.md); will move to checks when it exists'
 NOT_APPLICABLE = {
     pid: _PENDING
